@@ -15,6 +15,8 @@ import Sqfs.Proofs.BlockWriter
 import Sqfs.Proofs.BlockWriterSpec
 import Sqfs.Proofs.FragDedup
 import Sqfs.Proofs.ToyCodec
+import Sqfs.Proofs.C08Stream
+import Sqfs.Proofs.C08Shift
 namespace Sqfs.C08
 
 section BlockWriterPart
@@ -44,6 +46,38 @@ theorem bw_readback (pre : Bytes) (cs : List Call) (hsz : sizesOk cs) (hwf : wf 
     have h2 := HoldsIn_slice hinv.abs this
     exact h2
   · rw [hinv.abs.file]; simp
+
+/-- **Read-back of every kept location.** `process_completed_block` keeps the location of every `LAST` call (inode
+block start) *and* of every fragment block (fragment table).  For every call sequence obeying `wf`: each `LAST`
+location holds the file's stored bytes, and the location returned for each stored call made outside every file
+(no `FIRST` since the last `LAST`, itself neither `FIRST` nor `LAST` — where the block processor writes its
+fragment blocks) holds that block's bytes, after all later appends and truncations (`claimsOf`, `holdsAll`).
+Locations of non-final calls *inside* a file are kept by nobody and may be cut. -/
+theorem bw_readback_all (pre : Bytes) (cs : List Call) (hsz : sizesOk cs) (hwf : wf false cs = true)
+    (s : State) (locs : List Nat) (hrun : run (init pre) cs = .ok (s, locs)) :
+    holdsAll s.file (claimsOf false [] cs) locs = true := by
+  obtain ⟨s', locs', ps, _, _, hr, hinv, hl, _⟩ := run_spec cs (Inv_init pre) hsz hwf
+  rw [hrun] at hr
+  cases hr
+  refine holdsAll_of _ cs false [] locs hl ?_ ?_
+  · intro rc hrc
+    exact HoldsIn_slice hinv.abs (hinv.recs rc (by simpa using hrc))
+  · intro r hr
+    exact HoldsIn_slice hinv.abs (hinv.loose r (by simpa using hr))
+
+/-- **Fragment blocks are never truncated away.** Under the protocol the block processor follows (`wfS`: `wf`, and a
+call flagged `SQFS_BLK_FRAGMENT_BLOCK` never falls between a `FIRST` and its `LAST` and carries neither — proved of
+the processor's call stream in `stream_wfS` below), the location returned for every stored fragment block — the
+one `sqfs_frag_table_set` records — holds the block's bytes at every later time. -/
+theorem bw_fragblocks_kept (pre : Bytes) (cs : List Call) (hsz : sizesOk cs) (hwf : wfS false cs = true)
+    (s : State) (locs : List Nat) (hrun : run (init pre) cs = .ok (s, locs)) :
+    fragBlocksOk s.file cs locs = true := by
+  obtain ⟨s', locs', ps, _, _, hr, hinv, hl, _⟩ := run_spec cs (Inv_init pre) hsz (wfS_wf cs false hwf)
+  rw [hrun] at hr
+  cases hr
+  refine fragBlocksOk_of _ cs false locs hl hwf ?_
+  intro r hr
+  exact HoldsIn_slice hinv.abs (hinv.loose r (by simpa using hr))
 
 /-- **Sharing is sound.** If two files were given the same location, the shorter one's bytes are a prefix of
 the longer one's; in particular two files of equal stored length that share a location are byte-identical.
@@ -96,6 +130,19 @@ theorem bw_checksum_irrelevant (h1 h2 : Bytes → UInt32) (pre : Bytes) (cs : Li
   obtain ⟨s2, hr2, hf2⟩ := bw_refines_spec h2 pre cs hsz
   exact ⟨s1, s2, _, hr1, hr2, by rw [hf1, hf2]⟩
 
+/-- **Translation invariance.** Putting `pad` in front of what the file holds moves the whole run `|pad|` bytes up and
+changes nothing else: same success or error, every returned location is the old one plus `|pad|` — except the literal `0`
+a `LAST` call returns for a file that stored nothing (`*out = 0` in C) —, the file is `pad` followed by the old file,
+the history is the old one with shifted offsets.  For **every** call sequence and checksum (no protocol assumption).
+This is what lets the correspondence check drive the real writer at file offsets around 4 GiB (a harness file that
+pretends to have 2^32 − k zero bytes in front) and compare with the model run at offset 0. -/
+theorem bw_translate (pad pre : Bytes) (cs : List Call) :
+    run (init (pad ++ pre)) cs =
+      (match run (init pre) cs with
+       | .error e => .error e
+       | .ok (s0, locs0) => .ok (shiftState pad s0, shiftLocs pad.length (emptiesOf (init pre) cs) locs0)) := by
+  rw [init_shift]; exact run_shift pad cs (init pre)
+
 /-! ### the hypotheses are satisfiable, the conclusions are not trivial
 
 `AB`, `AB'`: two different two-byte blocks that get the *same* size word and the same checksum `7`.
@@ -123,6 +170,10 @@ example : (run (init []) exCalls).toOption.map (fun r => (r.2, r.1.file)) =
 /-- the same run through the specification (no checksums) -/
 example : (specRun ⟨[], [], 0⟩ (exCalls.map (fun c => (c.flags, c.data)))).2 = [0, 2, 2, 4, 6, 2] := by decide
 
+/-- `bw_translate` on the example: three bytes in front move every location by 3 -/
+example : (run (init [9, 9, 9]) exCalls).toOption.map (fun r => (r.2, r.1.file)) =
+    some ([3, 5, 5, 7, 9, 5], [9, 9, 9, 0x41, 0x43, 0x41, 0x42, 0x41, 0x42, 0x41, 0x42]) := by decide
+
 /-- `wf` is needed: a `LAST` without a `FIRST` directly after a `DONT_DEDUPLICATE` file cuts that file's own
 copy away (API misuse the block processor never commits). -/
 example :
@@ -131,6 +182,34 @@ example :
     wf false cs = false ∧
     (run (init []) cs).toOption.map (fun r => (r.2, r.1.file)) = some ([0, 0, 2, 0], [1, 2]) := by decide
 
+
+/-- `wfS` is needed for the fragment blocks (`wf` alone is not enough): a fragment block written *inside* a file
+(second file below: `FIRST [1,1]`, fragment block `[2,2]`, `LAST [3,3]`) is part of that file's run; when the
+file is found to equal the first one its three blocks are cut, the fragment block handed location 8 is gone
+and the next file is written over its slot.  `wf` holds, `wfS` does not, `fragBlocksOk` fails. -/
+example :
+    let cs : List Call := [ ⟨0, exFirst, [1, 1]⟩, ⟨0, 0, [2, 2]⟩, ⟨0, exLast, [3, 3]⟩,
+                            ⟨0, exFirst, [1, 1]⟩, ⟨0, Sqfs.Consts.blkFragmentBlock, [2, 2]⟩, ⟨0, exLast, [3, 3]⟩,
+                            ⟨0, exFirst ||| exLast, [9, 9]⟩ ]
+    wf false cs = true ∧ wfS false cs = false ∧
+    (run (init []) cs).toOption.map (fun r => (r.2, r.1.file, fragBlocksOk r.1.file cs r.2)) =
+      some ([0, 2, 0, 6, 8, 0, 6], [1, 1, 2, 2, 3, 3, 9, 9], false) := by decide
+
+/-- non-vacuity of `bw_fragblocks_kept` / `bw_readback_all`: fragment blocks between files (the second one equal
+to a block of the first file, same checksum), a file equal to the first one is shared and cut — the fragment
+blocks stay where they were put. -/
+def exCallsF : List Call :=
+  [ ⟨7, exFirst, [1, 1]⟩, ⟨7, exLast, [2, 2]⟩,
+    ⟨7, Sqfs.Consts.blkFragmentBlock, [2, 2]⟩,
+    ⟨7, exFirst, [1, 1]⟩, ⟨7, exLast, [2, 2]⟩,
+    ⟨7, Sqfs.Consts.blkFragmentBlock ||| Sqfs.Consts.blkIsCompressed, [5]⟩,
+    ⟨7, exFirst ||| exLast, [2, 2]⟩ ]
+
+example : wfS false exCallsF = true := by decide
+example : sizesOk exCallsF := by unfold sizesOk; decide
+example : (run (init [0xAA]) exCallsF).toOption.map (fun r => (r.2, r.1.file, fragBlocksOk r.1.file exCallsF r.2,
+      holdsAll r.1.file (claimsOf false [] exCallsF) r.2)) =
+    some ([1, 1, 5, 7, 1, 7, 3], [0xAA, 1, 1, 2, 2, 2, 2, 5], true, true) := by decide
 
 /-- The byte comparison is what carries the property: with `SQFS_BLOCK_WRITER_HASH_COMPARE_ONLY` (documented
 opt-out, never used by the tools) two different one-byte files with the same checksum are given the same location,
@@ -270,5 +349,137 @@ example :
       some [some (.loc 0 0), some (.loc 0 3)] := by decide
 
 end FragmentPart
+
+section StreamPart
+open Sqfs.BlockWriter Sqfs.C08Stream
+
+/-! ## The block processor's call stream: composition of the two halves
+
+`Sqfs.C08Stream` (`Model/C08Stream.lean`) wires the front end (`begin_file` / `append` / `end_file`), the worker
+(`process_block`), the FIFO pool, the I/O sequence numbers and the release loop of `dequeue_block`, the fragment
+path (`FragDedup`) and the block writer (`BlockWriter`) together as backend.c / frontend.c / block_processor.c do.
+`evs` ranges over **all** schedules: any list of `file` (any user flags the code accepts, any bytes), `submit`,
+`dequeue`, `complete` (one `process_completed_block`), `finish` events — i.e. every way the backlog accounting
+could interleave the main thread's actions; events the C control flow cannot produce are refused (`badEvent`).
+`h` is any checksum function, `codec` any codec. -/
+
+/-- **The call stream obeys the strengthened protocol.** Whatever the schedule, the `write_data_block` calls made so
+far satisfy `wfS`: every `LAST` has its `FIRST`, and no fragment block is written between a `FIRST` and its
+`LAST` (a fragment block gets its I/O sequence number when it is closed, i.e. while a tail end is being dequeued
+— after the sentinel of that file and before the first block of the next — or at `finish` with everything
+drained).  And the writer state is the result of `BlockWriter.run` on exactly those calls. -/
+theorem stream_wfS (codec : Codec) (h : List UInt8 → UInt32) (B : Nat) (pre : List UInt8) (evs : List C08Stream.Ev)
+    (s : C08Stream.State) (outs : List Out) (hrun : C08Stream.run codec h (C08Stream.init B pre) evs = .ok (s, outs)) :
+    wfS false s.calls = true ∧ BlockWriter.run (BlockWriter.init pre) s.calls = .ok (s.bw, s.locs) := by
+  obtain ⟨n, o, hs⟩ := run_SInv codec h evs outs (SInv_init B pre) hrun
+  exact ⟨SInv_wfS hs, (run_LInv codec h evs outs (LInv_init B pre) hrun).bwrun⟩
+
+/-- **Read-back of everything the processor keeps.** For a block size below 2^24, a codec that fits its output into
+the block-size buffer and has the round-trip contract: after any schedule, the location of every `LAST` call holds
+the file's stored bytes and the location of every fragment block holds that block, in the writer's current
+file (`bw_readback_all` and `bw_fragblocks_kept` applied to the processor's own call stream — their hypotheses
+`wf` / `wfS` / `sizesOk` are *proved* of it here, not assumed). -/
+theorem stream_readback (codec : Codec) (hrt : codec.RoundTrip) (h : List UInt8 → UInt32) (B : Nat) (hB0 : 0 < B)
+    (hB : B < 2 ^ 24) (hfit : Fits codec B) (pre : List UInt8) (evs : List C08Stream.Ev) (s : C08Stream.State) (outs : List Out)
+    (hrun : C08Stream.run codec h (C08Stream.init B pre) evs = .ok (s, outs)) :
+    holdsAll s.bw.file (claimsOf false [] s.calls) s.locs = true ∧ fragBlocksOk s.bw.file s.calls s.locs = true := by
+  obtain ⟨hwf, hbw⟩ := stream_wfS codec h B pre evs s outs hrun
+  obtain ⟨hz, hBs⟩ := run_ZInv codec hrt h evs outs (s := C08Stream.init B pre) hfit hB0 (ZInv_init codec h B pre) hrun
+  have hsz : sizesOk s.calls := by
+    intro c hc
+    have := hz.calls c hc
+    rw [hBs] at this
+    exact Nat.lt_of_le_of_lt this hB
+  exact ⟨bw_readback_all pre s.calls hsz (wfS_wf _ _ hwf) s.bw s.locs hbw,
+    bw_fragblocks_kept pre s.calls hsz hwf s.bw s.locs hbw⟩
+
+/-- **The fragment model's ghost store is the block writer's file.** `frag_sound` speaks about what "a reader obtains
+for fragment block `index`" as recorded in the ghost field `Place.written stored`.  In the composed run, for every
+fragment block that is on disk (`stored` non-empty): the fragment table holds a location and a size word with
+`size = |stored|` and the raw bit = "not compressed", the writer's file holds exactly `stored` there — at every later
+time, through all truncations — and reading the block back from the *file* (`fileReadBlock` = `load_frag_block` /
+the data reader) gives what the fragment model says a reader gets (`readBlock`). -/
+theorem stream_frag_link (codec : Codec) (hrt : codec.RoundTrip) (h : List UInt8 → UInt32) (B : Nat) (hB0 : 0 < B)
+    (hB : B < 2 ^ 24) (hfit : Fits codec B) (pre : List UInt8) (evs : List C08Stream.Ev) (s : C08Stream.State) (outs : List Out)
+    (hrun : C08Stream.run codec h (C08Stream.init B pre) evs = .ok (s, outs))
+    (i : Nat) (d stored : List UInt8) (cmp : Bool) (fl : Nat)
+    (hb : s.fd.blocks[i]? = some ⟨d, .written stored cmp, fl⟩) (hne : stored ≠ []) :
+    fileReadBlock codec s i = FragDedup.readBlock codec s.fd i ∧
+      ∃ loc word, s.fragTbl[i]? = some (loc, word) ∧ word % 2 ^ 24 = stored.length ∧
+        (word &&& (1 <<< 24) != 0) = !cmp ∧ readAt s.bw.file loc stored.length = some stored := by
+  have hl := run_LInv codec h evs outs (LInv_init B pre) hrun
+  obtain ⟨hz, hBs⟩ := run_ZInv codec hrt h evs outs (s := C08Stream.init B pre) hfit hB0 (ZInv_init codec h B pre) hrun
+  obtain ⟨k, c, loc, a1, a2, a3, a4⟩ := hl.link i d stored cmp fl hb hne
+  have hsz : stored.length < 2 ^ 24 := by
+    have := hz.calls c (List.mem_of_getElem? a1)
+    rw [a3, hBs] at this
+    exact Nat.lt_of_le_of_lt this hB
+  exact fileRead_of_linked codec s i d stored cmp fl hb hne hsz ⟨k, c, loc, a1, a2, a3, a4⟩
+    (stream_readback codec hrt h B hB0 hB hfit pre evs s outs hrun).2
+
+/-- **Fragment references are sound in the composed run.** The fragment events the processor generated (`s.fevs`: one
+`frag` per dequeued tail end, `written` per completed fragment block, `finish`) are a run of the fragment model from
+the empty state ending in `s.fd`, all tail ends are non-empty, hence `frag_sound` applies: every `(index, offset)`
+handed out addresses the tail end's bytes in what a reader obtains — which by `stream_frag_link` is what the file
+holds. -/
+theorem stream_frag_sound (codec : Codec) (hrt : codec.RoundTrip) (h : List UInt8 → UInt32) (B : Nat) (hB0 : 0 < B)
+    (hfit : Fits codec B) (pre : List UInt8) (evs : List C08Stream.Ev) (s : C08Stream.State) (outs : List Out)
+    (hrun : C08Stream.run codec h (C08Stream.init B pre) evs = .ok (s, outs)) :
+    FragDedup.run codec h true B {} s.fevs = .ok (s.fres, s.fd) ∧ FragDedup.evsOk s.fevs ∧
+      FragDedup.fragSoundOk codec s.fd s.fevs s.fres = true := by
+  obtain ⟨hz, hBs⟩ := run_ZInv codec hrt h evs outs (s := C08Stream.init B pre) hfit hB0 (ZInv_init codec h B pre) hrun
+  have hr := hz.frun
+  rw [hBs] at hr
+  exact ⟨hr, hz.fok, frag_sound codec hrt h B s.fevs hz.fok s.fres s.fd hr⟩
+
+/-- **The composed model only ever refuses schedules.** Whatever the schedule, the only way a run ends in an error is an
+event the local C control flow cannot produce (`badEvent`: nothing to submit / dequeue, `complete` with the wrong head
+of the I/O queue, `finish` before `sync` has drained everything) or `begin_file` flags the code rejects
+(`unsupported`).  In particular `write_data_block` never fails on the processor's call stream, the fragment path never
+reports `SQFS_ERROR_CORRUPTED` or a failed re-read, a fragment block coming back from the pool is always in flight in the
+fragment model, and the model's consistency exit `Err.internal` is unreachable: the worked fragment block that reaches
+`process_completed_block` is exactly what the fragment model says is stored (invariant `PInv`: every fragment block in
+the pool or the I/O queue is `process_block` applied to an in-flight block of the fragment model, at most one per
+index).  So the `stream_*` theorems above are about *every* run that the schedule admits. -/
+theorem stream_no_error (codec : Codec) (hrt : codec.RoundTrip) (h : List UInt8 → UInt32) (B : Nat) (hB0 : 0 < B)
+    (hB : B < 2 ^ 24) (hfit : Fits codec B) (pre : List UInt8) (evs : List C08Stream.Ev) (x : C08Stream.Err)
+    (hrun : C08Stream.run codec h (C08Stream.init B pre) evs = .error x) : x = .badEvent ∨ x = .unsupported :=
+  run_total codec hrt h evs (AllInv_init codec h B pre hfit hB0 hB) x hrun
+
+/-! ### non-vacuity: block size 4, constant checksum, toy RLE codec.  Three files: `1111 78`, `1111 79` (full block equal to
+the first file's → shared, its copy cut), `555` (does not fit into fragment block 0 → block 0 is closed while the tail end
+is dequeued, gets sequence number 4 and is written between the files; block 1 is closed by `finish`). -/
+
+def exStream : List C08Stream.Ev :=
+  [ .file 0 [1, 1, 1, 1, 7, 8], .file 0 [1, 1, 1, 1, 7, 9], .file 0 [5, 5, 5],
+    .submit, .submit, .submit, .submit, .submit, .submit, .submit,
+    .dequeue, .dequeue, .dequeue, .complete, .complete,
+    .dequeue, .dequeue, .complete, .complete,
+    .dequeue, .dequeue, .dequeue, .complete,
+    .finish, .dequeue, .complete ]
+
+example : (Sqfs.ToyCodec.codec 4).RoundTrip ∧ Fits (Sqfs.ToyCodec.codec 4) 4 :=
+  ⟨Sqfs.ToyCodec.codec_roundTrip 4, Sqfs.ToyCodec.codec_fits 4⟩
+
+/-- the run succeeds; six calls (block, sentinel, block, sentinel, fragment block 0, fragment block 1); the second file
+shares location 0; the fragment blocks sit at 2 and 6 and the table says so; block 1 is stored compressed (`5 ×3`) and
+reads back from the file as `555` -/
+example :
+    (C08Stream.run (Sqfs.ToyCodec.codec 4) (fun _ => 0) (C08Stream.init 4 []) exStream).toOption.map
+      (fun r => (r.1.calls.map (fun c => (c.flags, c.data)), r.1.locs, r.1.bw.file)) =
+    some ([(0x8800, [1, 4]), (0x1000, []), (0x8800, [1, 4]), (0x1000, []), (0x4000, [7, 8, 7, 9]), (0xC000, [5, 3])],
+          [0, 0, 2, 0, 2, 6], [1, 4, 7, 8, 7, 9, 5, 3]) := by decide
+
+example :
+    (C08Stream.run (Sqfs.ToyCodec.codec 4) (fun _ => 0) (C08Stream.init 4 []) exStream).toOption.map
+      (fun r => (r.1.fragTbl, fileReadBlock (Sqfs.ToyCodec.codec 4) r.1 0, fileReadBlock (Sqfs.ToyCodec.codec 4) r.1 1,
+                 r.1.fres.filterMap id)) =
+    some ([(2, 0x1000004), (6, 2)], some [7, 8, 7, 9], some [5, 5, 5], [.loc 0 0, .loc 0 2, .loc 1 0]) := by decide
+
+/-- a schedule the C control flow cannot produce is refused: `finish` with blocks still in the pool -/
+example : (C08Stream.run (Sqfs.ToyCodec.codec 4) (fun _ => 0) (C08Stream.init 4 [])
+      [.file 0 [1, 1, 1, 1, 7, 8], .submit, .finish]).toOption.isNone = true := by decide
+
+end StreamPart
 
 end Sqfs.C08
